@@ -68,8 +68,11 @@ class G:
         while len(keys) < size:
             if kt in ('string', 'bytes'):
                 ln = r.choice((KEY_EDGES + KEY_BIG + KEY_BIG) if long_keys else KEY_EDGES[:40]) if r.random() < 0.8 else r.randrange(0, 64)
-                if kt == 'string':
+                if kt == 'string' and r.random() < 0.7:
                     k = bytes(r.choice(b'abcdefghijklmnopqrstuvwxyzABC0123456789_-') for _ in range(ln))
+                elif kt == 'string':
+                    # a string-keyed map accepts ANY byte string (From<&[u8]>): keys that are not valid UTF-8, multi-byte sequences
+                    k = bytes(r.choice([0x63, 0xe9, 0xc3, 0xa9, 0xff, 0x80, 0xe3, 0x81, 0x82, 0xf0, 0x9f, 0x00, 0x41]) for _ in range(ln))
                 else:
                     k = bytes(r.randrange(256) for _ in range(ln))
             elif kt == 'u64':
